@@ -910,7 +910,19 @@ def run(ck, tier, rng):
             impl_out.append(impl_cal(c))
             ck.count(("cal", c["lo"], c["cnt"]), True, "calendar")
             continue
-        out, trace = impl_seq(c, schema)
+        try:
+            out, trace = impl_seq(c, schema)
+        except Exception as e:  # noqa
+            # the history itself could not be run: core_properties could not be reached, a save or a re-open raised ...
+            # every operation of these histories is one the property says must work (a refused assignment is caught inside)
+            ck.violation("history-raised:%s:%s" % (c["klass"], type(e).__name__),
+                         "a core-properties history (%s, %s core-properties part at the start) raised %s: %s -- operations %r" % (
+                             c["klass"], "without a" if c["k"] == 1 else "with an emptied", type(e).__name__, str(e)[:200],
+                             [describe_op(o) for o in c["ops"]][:4]),
+                         {"entry_point": "Presentation.core_properties / save / re-open", "input": {"k": c["k"], "now": c["now"], "ops": [list(map(str, o)) for o in c["ops"]][:8]},
+                          "impl_outcome": "%s: %s" % (type(e).__name__, str(e)[:300])})
+            impl_out.append("raised:" + type(e).__name__)
+            continue
         impl_out.append(out)
         ck.count((c["k"], c["now"], c["ops"]), nontrivial(c), c["klass"])
         ck.evaluations += len(c["ops"]) - 1
